@@ -124,6 +124,16 @@ func debugRun(dir, pat string, rest []string) int {
 			fmt.Println("ENGINE-ERROR:", err)
 		}
 	}
+	if os.Getenv("GOVC_TAGGED") != "" {
+		// development aid: like scope "tagged" of a check - drop the safety/alloc sweep
+		var keep []*Obligation
+		for _, o := range e.obligations {
+			if o.Kind != "safety" && o.Kind != "alloc" {
+				keep = append(keep, o)
+			}
+		}
+		e.obligations = keep
+	}
 	if os.Getenv("GOVC_NOSOLVE") != "" {
 		// exploration only: obligation count, states, abstractions (no solver runs)
 		fmt.Printf("exec %.1fs, %d obligations generated, %d states\n", time.Since(t0).Seconds(), len(e.obligations), e.stateCounter)
